@@ -207,7 +207,12 @@ class Check(PropertyCheck):
                   "stream's own upstream id; no_stream_lost_on_close), queue_fifo (opened ++ queued = arrival order), "
                   "queue_nonempty_implies_no_capacity, open_le_limit, response_routed; and about BufferedH2Connection's send "
                   "buffers for all windows / frame sizes: buffered_bytes_conserved (send_data incl. frame-size splitting, "
-                  "the flush loop, stream_window_updated), trailers_after_data. The model is tied to the code by replaying, in "
+                  "the flush loop, stream_window_updated), buffered_bytes_conserved_connection (connection_window_updated: the "
+                  "round robin over all buffers, any number of rounds — so every entry point of BufferedH2Connection is "
+                  "covered — for streams satisfying StreamOk), stream_ok_invariant (StreamOk holds initially and is kept by "
+                  "send_data under the callers' discipline), trailers_after_data; demux_own_stream / route_own_stream "
+                  "(HttpLayer.streams after any make_stream / DropStream sequence hands an event to the HttpStream created for "
+                  "its id, or to nobody). The model is tied to the code by replaying, in "
                   "lock step, the events the real Http2Client received in end-to-end runs of interleaved, arbitrarily "
                   "segmented multi-stream scripts (frames written incl. their sizes, events passed up with their ids, queue, "
                   "id map, open streams, buffers compared after every call), and by direct differential runs of "
@@ -216,12 +221,14 @@ class Check(PropertyCheck):
     level_note = ("trusted / not proved: hyper-h2/hpack (framing, stream state machine, flow-control accounting) — the model takes "
                   "the EVENTS h2 reports as input and abstracts its state to window + open flags per stream; that abstraction "
                   "is validated by the lock-step comparison only. Hypothesis of the theorems (Good): HttpStream hands over, "
-                  "per stream, the request head first and exactly once (C03). PARTIAL: buffered_bytes_conserved is proved for "
-                  "send_data, the flush loop and stream_window_updated; that connection_window_updated (the round robin that "
-                  "calls them) and hyper-h2's receive path compose them as modelled is covered by the differential run, not by "
-                  "a theorem; 'no data is submitted after the end of a message' is assumed, not proved. Http2Server's "
-                  "demultiplexing of client frames into flows is checked by the peer oracle only; its send side uses the same "
-                  "BufferedH2Connection. When a WINDOW_UPDATE arrives in one segment with a GOAWAY hyper-h2 raises inside "
+                  "per stream, the request head first and exactly once (C03). The conservation theorems for the flush entry points are stated for well-kept "
+                  "streams (StreamOk: nothing buffered for a stream that cannot send any more, END_STREAM only on the last "
+                  "buffered chunk); StreamOk is proved to be kept by send_data when the caller respects is_open_for_us and "
+                  "submits no data after the end of a message (CanSubmit) — that HttpStream does so is assumed (C03), and for a "
+                  "stream the peer has reset the buffered bytes are (intentionally) dropped. Http2Server passes events up under "
+                  "the id hyper-h2 reports (identity); which frame belongs to which stream is hyper-h2's demultiplexing "
+                  "(trusted, exercised by the peer oracle); the routing by id in HttpLayer.streams is demux_own_stream. Its send "
+                  "side uses the same BufferedH2Connection. When a WINDOW_UPDATE arrives in one segment with a GOAWAY hyper-h2 raises inside "
                   "receive_data; what is then left in the send buffers of the closed connection is not compared.")
     technique = "Lean 4 proof (invariants of a transition system, induction over input histories) + lock-step differential correspondence of the model with the real Http2Client/BufferedH2Connection + peer-decoded property oracle"
     rule = ("layer cases: 2-6 concurrent client streams, each headers/data*/[trailers]/end or reset, interleaved at random, "
